@@ -116,7 +116,9 @@ func genC15(r *Rng, tier string, idx int) *Plan {
 func hostileRequest(w *World, shape string) *envoy.CheckRequest {
 	f := w.Filters[0]
 	host, cookie := f.Spec.AppHost, f.Spec.CookieName()
-	mk := func(path string, hdr map[string]string) *envoy.CheckRequest { return mkRequest("https", host, path, hdr) }
+	mk := func(path string, hdr map[string]string) *envoy.CheckRequest {
+		return mkRequest("https", host, path, hdr)
+	}
 	switch shape {
 	case "nil-request-msg":
 		return nil
